@@ -16,6 +16,7 @@ type step struct {
 	Act  string          `json:"act"`
 	P    string          `json:"p"`
 	Arg  int             `json:"arg"`
+	S    string          `json:"s"` // auth: the secret typed for this run
 	Body int             `json:"body"`
 	EncF bool            `json:"encf"`
 	Chg  string          `json:"chg"`
@@ -24,11 +25,10 @@ type step struct {
 	Enc  map[string]bool `json:"enc"`
 }
 type behaviour struct {
-	Hi     string            `json:"hi"`
-	NF     map[string]int    `json:"nf"`
-	Sec    map[string]string `json:"sec"`
-	Inbox0 []string          `json:"inbox0"`
-	H      []step            `json:"h"`
+	Hi     string         `json:"hi"`
+	NF     map[string]int `json:"nf"`
+	Inbox0 []string       `json:"inbox0"`
+	H      []step         `json:"h"`
 }
 
 // estimated text lengths per message kind (characters of "?OTR:...."), learnt from a pilot conversation
@@ -87,7 +87,7 @@ type divergence struct {
 
 // replay steps one behaviour through two real Conversations.  It returns a property-level violation
 // (sig, what), or a divergence in details the property is silent about, or neither.
-func replay(bh *behaviour, seed int64) (sig, what string, div *divergence, unrealised string) {
+func replay(bh *behaviour, seed int64, tr *smpTracker) (sig, what string, div *divergence, unrealised string) {
 	estOnce.Do(learnLengths)
 	w := newWorld(seed, bh.Hi)
 	for _, p := range bh.Inbox0 {
@@ -138,23 +138,30 @@ func replay(bh *behaviour, seed int64) (sig, what string, div *divergence, unrea
 		case "send":
 			toSend, err = c.Send(bodyOf(s.Arg, seed))
 		case "end":
+			tr.disturbed = true
 			toSend = c.End()
 		case "auth":
 			q := ""
 			if s.Arg == 1 {
 				q = "what is the answer?"
 			}
-			toSend, err = c.Authenticate(q, []byte("secret-"+bh.Sec[s.P]))
+			if sg, wh := tr.auth(s.P, s.S, len(w.net["a"])+len(w.net["b"]) == 0); sg != "" {
+				return sg, fmt.Sprintf("step %d: %s", i, wh), nil, ""
+			}
+			toSend, err = c.Authenticate(q, []byte("secret-"+s.S))
 		case "query": // p's user sends the query again (re-keying): outside the property's scope, conformance only
 			faulted = true
+			tr.disturbed = true
 			w.net[peer(s.P)] = append(w.net[peer(s.P)], wire{b: []byte("?OTRv2?"), grp: &group{frags: [][]byte{[]byte("?OTRv2?")}}})
 			continue
 		case "drop":
 			faulted = true
+			tr.disturbed = true
 			w.net[s.P] = w.net[s.P][1:]
 			continue
 		case "dup":
 			faulted = true
+			tr.disturbed = true
 			q := w.net[s.P]
 			cp := q[0]
 			cp.b = append([]byte(nil), cp.b...)
@@ -165,6 +172,7 @@ func replay(bh *behaviour, seed int64) (sig, what string, div *divergence, unrea
 			continue
 		case "tamper":
 			faulted = true
+			tr.disturbed = true
 			if !w.tamperHead(s.P) {
 				return "", "", nil, "cannot modify the authenticated part inside this fragment"
 			}
@@ -209,9 +217,14 @@ func replay(bh *behaviour, seed int64) (sig, what string, div *divergence, unrea
 		if delivDiv != nil {
 			return "", "", delivDiv, ""
 		}
-		for _, ev := range []string{"smpcomplete", "smpfailed"} {
+		if s.Act == "deliver" {
+			tr.event(s.P, chg)
+		}
+		for _, ev := range []string{"smpcomplete", "smpfailed", "smpneeded"} {
 			if (chg == ev) != (s.Chg == ev) {
-				return "otr-smp-outcome", fmt.Sprintf("step %d: SecurityChange %s, model %s (secrets a=%s b=%s)", i, chg, s.Chg, bh.Sec["a"], bh.Sec["b"]), nil, ""
+				// the SMP events differ from the model's: what that means for the property is decided per run by the tracker
+				// (here, if the behaviour goes on, and in the sequential re-run of the behaviour's Authenticate calls)
+				return "", "", &divergence{"SecurityChange", i, s.Chg, chg}, ""
 			}
 		}
 		// ---- details the property is silent about: divergence (decided by fair completion, see finish)
@@ -250,6 +263,9 @@ func replay(bh *behaviour, seed int64) (sig, what string, div *divergence, unrea
 				return "", "", nil, fmt.Sprintf("encoder produced %d fragments, wanted %d (length estimate off)", len(g.frags), bh.NF[s.P])
 			}
 		}
+	}
+	if sg, wh := tr.finish(len(w.net["a"])+len(w.net["b"]) == 0); sg != "" {
+		return sg, "end of the behaviour: " + wh, nil, ""
 	}
 	return "", "", nil, ""
 }
@@ -352,6 +368,7 @@ func TestReplay(t *testing.T) {
 		div        *divergence
 		unrealised string
 		benign     bool
+		stats      map[string]int
 	}
 	res := make([]result, len(cases))
 	var wg sync.WaitGroup
@@ -364,7 +381,18 @@ func TestReplay(t *testing.T) {
 			defer func() { <-sem }()
 			seed := vutil.Seed()*100003 + int64(i)
 			r := &res[i]
-			r.sig, r.what, r.div, r.unrealised = replay(&cases[i], seed)
+			tr := newSMPTracker()
+			r.sig, r.what, r.div, r.unrealised = replay(&cases[i], seed, tr)
+			r.stats = map[string]int{}
+			if r.div == nil {
+				tr.addStats(r.stats)
+			}
+			if r.sig == "" && r.div != nil && hasAuth(&cases[i]) {
+				if sg, wh := smpScript(&cases[i], seed, r.stats); sg != "" {
+					r.sig = sg
+					r.what = fmt.Sprintf("after diverging from the model at step %d (%s: model %v, code %v): %s", r.div.Step, r.div.Field, r.div.Want, r.div.Got, wh)
+				}
+			}
 			if r.sig == "" && r.div != nil {
 				// the real code left the model in a detail the property does not fix: does the property still hold?
 				r.sig, r.what = fairFinish(&cases[i], seed)
@@ -378,6 +406,8 @@ func TestReplay(t *testing.T) {
 	}
 	wg.Wait()
 	divs, unreal := 0, 0
+	smpStats := map[string]int{}
+	perSig := map[string]int{}
 	var divSamples, unrealSamples []any
 	for i := range cases {
 		r := res[i]
@@ -387,7 +417,10 @@ func TestReplay(t *testing.T) {
 		}
 		out.Case(key)
 		if r.sig != "" {
-			out.Violation(r.sig, r.what, map[string]any{"behaviour": json.RawMessage(raw[i]), "seed": vutil.Seed()*100003 + int64(i)})
+			perSig[r.sig]++
+			if perSig[r.sig] <= 3 { // a few witnesses per signature, so that no signature is crowded out of the result
+				out.Violation(r.sig, r.what, map[string]any{"behaviour": json.RawMessage(raw[i]), "seed": vutil.Seed()*100003 + int64(i)})
+			}
 			t.Errorf("%s: %s", r.sig, r.what)
 		}
 		if r.div != nil {
@@ -395,6 +428,9 @@ func TestReplay(t *testing.T) {
 			if len(divSamples) < 5 {
 				divSamples = append(divSamples, map[string]any{"field": r.div.Field, "step": r.div.Step, "model": r.div.Want, "code": fmt.Sprint(r.div.Got), "behaviour": json.RawMessage(raw[i])})
 			}
+		}
+		for k, v := range r.stats {
+			smpStats[k] += v
 		}
 		if r.unrealised != "" {
 			unreal++
@@ -407,6 +443,12 @@ func TestReplay(t *testing.T) {
 		}
 	}
 	out.Extra["divergences"] = divs
+	for k, v := range smpStats {
+		out.Extra["replay_"+k] = v
+	}
+	for k, v := range perSig {
+		out.Extra["violations_"+k] = v
+	}
 	out.Extra["unrealised"] = unreal
 	if divs > 0 {
 		out.Extra["divergence_samples"] = divSamples
